@@ -325,7 +325,14 @@ func tRun(P *Prover, loops map[*ssa.BasicBlock]map[*ssa.BasicBlock]bool, idx ssa
 
 // tSweep: idx is exactly a unit-step loop counter, and the access executes on every iteration.
 func tSweep(P *Prover, loops map[*ssa.BasicBlock]map[*ssa.BasicBlock]bool, idx ssa.Value, at *ssa.BasicBlock) (string, bool) {
-	ph, ok := strip(idx).(*ssa.Phi)
+	v := strip(idx)
+	// a range loop indexes with counter+1 (the counter starts at -1): any constant offset still sweeps
+	if bo, isBo := v.(*ssa.BinOp); isBo && (bo.Op == token.ADD || bo.Op == token.SUB) {
+		if _, isK := constInt(bo.Y); isK {
+			v = strip(bo.X)
+		}
+	}
+	ph, ok := v.(*ssa.Phi)
 	if !ok {
 		return "", false
 	}
